@@ -251,6 +251,25 @@ theorem C09_never_silent_integer_midstream {F} (ops : FloatOps F) (lookup : Int 
     (input.all isSpace = true ∧ r.val = .unset) :=
   never_silent_integer_of_cfg ops Generated.lexCfg (by decide) (by decide) lookup nullable input l0 r h hne
 
+/-- what `Layout` (the separators of the never-silent clauses and the middle part of `KeptDelims`) is, exactly: blanks and
+    *closed* comments each ending at its first `*/` (`ExactLayout`), optionally followed by one last comment that is never
+    closed and whose text contains no `*/` — nothing else.  In particular text behind a closed comment is outside it: a
+    reader that swallowed `/*c*/ , 2` would not satisfy `Between`.  (`SkipTokenSeparators` has no length bound; the 8192
+    characters of `ReadComment` concern `ReadTokenSeparator`, i.e. the aggregate loop of the shared reader model.) -/
+theorem C09_layout_exact {m : List Byte} (h : Layout m) :
+    ExactLayout m ∨ ∃ a body, m = a ++ 47 :: 42 :: body ∧ ExactLayout a ∧ noClose 0 body = true := by
+  induction h with
+  | nil => exact Or.inl .nil
+  | blank hc _ ih =>
+    rcases ih with h | ⟨a, body, rfl, ha, hb⟩
+    · exact Or.inl (.blank hc h)
+    · exact Or.inr ⟨_ :: a, body, by simp, .blank hc ha, hb⟩
+  | @comment body m hb _ ih =>
+    rcases ih with h | ⟨a, body', rfl, ha, hb'⟩
+    · exact Or.inl (.comment hb h)
+    · exact Or.inr ⟨47 :: 42 :: (body ++ 42 :: 47 :: a), body', by simp, .comment hb ha, hb'⟩
+  | @unterminated body hb => exact Or.inr ⟨[], body, by simp, .nil, hb⟩
+
 /-- INTEGER, the delimiter is never consumed: for *any* input bytes and any scanner configuration, what the reader takes
     from the stream is a delimiter-free stretch (blanks, `$` or the token), then separators (`Between`: blanks, and comments
     when `CheckRemainingInput` skips them), then delimiter-free garbage up to the next delimiter — a `,` or `)` is only ever
@@ -997,6 +1016,40 @@ theorem C09_writer_real_reads_back_model (cfg : LexCfg) (lookup : Int → RefLoo
     attrRead dblOps cfg lookup .real nullable (IStream.ofBytes (attrWrite dblOps .real (.real bits) ++ sp ++ d :: rest)) =
       .ok ⟨.null, .real bits, { left := sp.reverse ++ (attrWrite dblOps .real (.real bits)).reverse, right := d :: rest }⟩ :=
   C09_write_read_real dblOps cfg lookup nullable bits ⟨dbl_fmtG15_shape bits hfin, hstable⟩ hnn hbuf sp rest d hsp hd
+
+/-! #### the repaired `WriteReal` (fixes/C09-10): 15, then 16, then 17 significant digits until the text converts back -/
+
+/-- conforming, for every finite double, also with the repaired writer (`dblOpsRT`) -/
+theorem C09_writer_real_conforming_model_rt (bits : Nat) (hfin : (bits / Dbl.pow2 52 % 2048 == 2047) = false) :
+    isReal (attrWrite dblOpsRT .real (.real bits)) = true ∧ isReal (attrWrite dblOpsRT .number (.real bits)) = true ∧
+    denoteReal (attrWrite dblOpsRT .real (.real bits)) = parseFloatText (dblOpsRT.fmtG15 bits) :=
+  have h := C09_write_real_conforming dblOpsRT bits (dbl_fmtShortest_shape bits hfin)
+  ⟨h.1, h.1, h.2⟩
+
+/-- REAL / NUMBER writer, reads back to the same value — for **every** finite double, with the repaired `WriteReal`: the
+    written token followed by any `Gap` and a delimiter is read to exactly the double that was written, no error.  The one
+    hypothesis left is the numeric fact that 17 significant digits determine a double (`h17`: `%.17G` of the value converts
+    back to it), needed only when neither 15 nor 16 digits do — the writer *tests* those; `h17` is validated against the
+    platform for every double the check writes (`fl g17` + `fl parse`, the writer grid). -/
+theorem C09_writer_real_round_trips_model (cfg : LexCfg) (lookup : Int → RefLookup) (nullable : Bool) (bits : Nat)
+    (hfin : (bits / Dbl.pow2 52 % 2048 == 2047) = false) (h17 : Dbl.readsBack (Dbl.fmtG 17 bits) bits = true)
+    (hnn : dblOpsRT.isRealNull bits = false)
+    (hbuf : cfg.realBuf = 0 ∨ (attrWrite dblOpsRT .real (.real bits)).length < cfg.realBuf)
+    (sp rest : List Byte) (d : Byte) (hsp : Gap cfg sp) (hd : d = 44 ∨ d = 41) :
+    attrRead dblOpsRT cfg lookup .real nullable (IStream.ofBytes (attrWrite dblOpsRT .real (.real bits) ++ sp ++ d :: rest)) =
+      .ok ⟨.null, .real bits, { left := sp.reverse ++ (attrWrite dblOpsRT .real (.real bits)).reverse, right := d :: rest }⟩ :=
+  C09_write_read_real dblOpsRT cfg lookup nullable bits ⟨dbl_fmtShortest_shape bits hfin, dbl_fmtShortest_stable bits h17⟩ hnn hbuf
+    sp rest d hsp hd
+
+/-- what 15 digits lose, and what the repair restores (kernel evaluation): 0.1 + 0.2 = 0x3FD3333333333334 is written `0.3` by
+    the 15-digit writer, which reads back as 0x3FD3333333333333 — another double; the repaired writer writes
+    `0.30000000000000004`, which reads back to the value -/
+theorem C09_writer_fifteen_digits_witness :
+    attrWrite dblOps .real (.real 0x3FD3333333333334) = [48, 46, 51] ∧
+    Dbl.readsBack (attrWrite dblOps .real (.real 0x3FD3333333333334)) 0x3FD3333333333333 = true ∧
+    Dbl.readsBack (attrWrite dblOps .real (.real 0x3FD3333333333334)) 0x3FD3333333333334 = false ∧
+    Dbl.readsBack (attrWrite dblOpsRT .real (.real 0x3FD3333333333334)) 0x3FD3333333333334 = true := by
+  decide
 
 /-! ### NUMBER: full theorems through the scan/parse equivalence of `in >> d` -/
 
@@ -2619,6 +2672,53 @@ example : Gap Generated.lexCfg [32, 47, 42, 99, 42, 47, 32] := by
   exact .blank (by decide) (.comment (body := [99]) (by decide) (.blank (by decide) .nil))
 example : readsNoErr (attrRead dblOps Generated.lexCfg noRef .integer false
     (IStream.ofBytes [45, 49, 50, 32, 47, 42, 99, 42, 47, 32, 44])) = true := by decide
+
+/-! ### the writers of BINARY, ENUMERATION and STRING: the written token is in the grammar (when the stored value is) -/
+
+/-- BINARY writer, conforming: for a content that is the body of a grammar token (first digit 0…3, upper-case hexadecimal
+    digits) the written token is that token of the grammar `binary` and denotes the content -/
+theorem C09_writer_binary_conforming {F} (ops : FloatOps F) (hex : List Byte) (htok : isBinary (34 :: (hex ++ [34])) = true) :
+    isBinary (attrWrite ops .binary (.bin hex)) = true ∧ binaryBody (attrWrite ops .binary (.bin hex)) = some hex := by
+  have hne : hex ≠ [] := by
+    intro h; subst h; simp [isBinary, binaryBody] at htok
+  have hw : attrWrite ops .binary (.bin hex) = 34 :: (hex ++ [34]) := by
+    cases hex with
+    | nil => exact absurd rfl hne
+    | cons a u => simp [attrWrite, writeBinary]
+  rw [hw]
+  exact ⟨htok, by simp [binaryBody]⟩
+
+/-- … and where the writer is *not* conforming: the content is written verbatim, so a content that was read leniently (lower-
+    case digits, first digit above 3) is written back as a token outside the grammar `binary` (named exclusion of the writer
+    claim: the value did not come from a grammar token) -/
+theorem C09_writer_binary_lenient_witness :
+    attrWrite dblOps .binary (.bin [102, 102]) = [34, 102, 102, 34] ∧ isBinary (attrWrite dblOps .binary (.bin [102, 102])) = false ∧
+    isBinaryLenient (attrWrite dblOps .binary (.bin [102, 102])) = true := by
+  decide
+
+/-- ENUMERATION / BOOLEAN / LOGICAL writer, conforming: for an item whose table name is a name of the grammar (`upper { upper |
+    digit }` — the generated tables hold upper-case names) the written token is `.NAME.`, a token of the grammar
+    `enumeration` denoting that name -/
+theorem C09_writer_enum_conforming {F} (ops : FloatOps F) (k : Kind) (hk : EnumLike k) (i : Nat) (name : List Byte)
+    (hname : k.enumKind.table.getD i bUNSET = name) (hgram : isEnumName name = true) :
+    attrWrite ops k (.enum i) = 46 :: (name ++ [46]) ∧ enumBody (attrWrite ops k (.enum i)) = some name ∧ isEnumName name = true := by
+  have hw : attrWrite ops k (.enum i) = 46 :: (name ++ [46]) := by
+    simp only [attrWrite, hname]; simp
+  rw [hw]
+  exact ⟨rfl, by simp [enumBody], hgram⟩
+
+/-- the item names of BOOLEAN and LOGICAL, as regenerated from `element_at`, are names of the grammar -/
+theorem C09_writer_logical_names_conforming :
+    (Generated.booleanTable.all fun n => isEnumName n) = true ∧ (Generated.logicalTable.all fun n => isEnumName n) = true := by
+  decide
+
+/-- STRING writer, conforming: the stored value *is* the literal in its encoded form (`SDAI_String` keeps quotes and control
+    directives as read; `STEPwrite` writes it verbatim), so for a value that is a token of the grammar `string` the written
+    token is that token.  Nothing is re-encoded: quote doubling and directives are examined on the read side
+    (`C09_accept_string_body`), not here — a value set through the API with a bare apostrophe is written verbatim too. -/
+theorem C09_writer_string_conforming {F} (ops : FloatOps F) (tok : List Byte) (htok : isString tok = true) :
+    attrWrite ops .string (.str tok) = tok ∧ isString (attrWrite ops .string (.str tok)) = true :=
+  ⟨rfl, htok⟩
 
 /-! ## aggregates of simple kinds (`STEPaggregate::ReadValue` = `aggrRead` of `P21/Reader.lean`, the reader model shared with C01)
 
